@@ -1320,3 +1320,98 @@ def r04_9(ctx):
                     "unresolved): the socket then honours a window / acknowledgment the peer never saw", body=d, bb=w['bb'])
         else:
             ctx.ok(('dispatch', w['field'], w['bb']), sample=dict(field=w['field'], after='emit(..)?'))
+
+
+@rule('R05.10', ['C05', 'C01', 'C17'], floor=3, clause='application data enters the transmit queue only in states in which it may still be sent (send_impl behind may_send()), and reset() empties both socket buffers: nothing queued after close() or under a previous connection is ever transmitted')
+def r05_10(ctx):
+    F = ctx.F
+    SOCK = 'socket::tcp::Socket'
+    si_ = ctx.method(SOCK, 'send_impl')
+    ms = ctx.method(SOCK, 'may_send')
+    sites = [x[0] for x in si_.calls() if isinstance(x[1], dict) and ((x[1].get('fn') or '').endswith('FnOnce::call_once') or (x[1].get('fn') or '').endswith('FnMut::call_mut'))]
+    ctx.need(sites, "the enqueue callback call in tcp::Socket::send_impl")
+    if unguarded(F, si_, sites, p_call(lambda n: n == ms.key, True)):
+        ctx.bad("send_impl|enqueue-without-may_send", "send_impl lets the application queue data without may_send() being true: bytes written after close() are queued behind the FIN "
+                "and transmitted with sequence numbers that already belong to it", body=si_, bb=sites[0])
+    else:
+        ctx.ok(('send_impl', 'may_send'), sample=dict(fn='send_impl', guard='may_send()'))
+    rs = ctx.method(SOCK, 'reset')
+    rb = 'storage::ring_buffer::RingBuffer'
+    got = set()
+    for x in rs.calls():
+        nm = rs.callee_name(x[1]) or ''
+        if nm.startswith(rb) and nm.endswith('::clear') and x[2]:
+            o = F.origin.operand(rs, x[2][0], x[0], len(rs.blocks[x[0]]['s']))
+            for l in leafs(o):
+                if l.startswith(f"F:{SOCK}."):
+                    got.add(l.rsplit('.', 1)[-1])
+    seen = rs.reachable()
+    for fld in ('tx_buffer', 'rx_buffer'):
+        if fld in got:
+            ctx.ok(('reset', fld), sample=dict(fn='reset', clears=fld))
+        else:
+            ctx.bad(f"reset|{fld}-not-cleared", f"tcp::Socket::reset does not clear {fld}: " + ("octets still queued when a connection ended abnormally are sent as the first data "
+                    "of the next connection made with the same socket" if fld == 'tx_buffer' else "octets received under the previous connection are delivered to the next one"), body=rs)
+
+
+# fields of a representation that emit() legitimately does not write itself (reviewed one by one)
+_EMIT_FIELD_EXCEPTIONS = {
+    ('wire::ipv6ext_header::Repr', 'data'): "the extension header's body is emitted by the caller behind the two octets this emit writes; header_len() does not include it",
+    ('wire::mld::AddressRecordRepr', 'payload'): "source list / auxiliary data of a record are emitted by the caller; buffer_len() does not include them",
+}
+
+
+@rule('R06.14', ['C06'], floor=25, clause='emit reads every field of the representation it serialises: a field that parse fills but emit never looks at cannot survive emit-then-parse')
+def r06_14(ctx):
+    F = ctx.F
+    n = 0
+    for k, b in sorted(F.bodies.items()):
+        if not k.startswith('wire::') or '::test' in k or k.rsplit('::', 1)[-1] != 'emit':
+            continue
+        adt = b.meta.get('impl_self')
+        a = F.adts.get(adt) if adt else None
+        if not a or not adt.endswith('Repr') or not in_scope_repr(F, adt):
+            continue
+        fam = [b] + list(F.closures_of(b.key))
+        read = set()
+        whole = False
+
+        def scan(x):
+            if isinstance(x, list):
+                if x and x[0] == 'f' and len(x) >= 5 and x[3] == adt:
+                    read.add((x[4], x[2]))
+                for y in x:
+                    scan(y)
+            elif isinstance(x, dict):
+                for y in x.values():
+                    scan(y)
+        for bb in fam:
+            for bi_, bl in enumerate(bb.blocks):
+                if bl['cl']:
+                    continue
+                for s in bl['s']:
+                    scan(s)
+                scan(bl['t'])
+                t = bl['t']
+                if t[0] == 'call' and bb is b and t[2] and ('Deref>::deref' in (bb.callee_name(t[1]) or '') or (bb.callee_name(t[1]) or '').endswith('Deref::deref')):
+                    o = strip(F.origin.operand(bb, t[2][0], bi_, len(bl['s'])))
+                    while o[0] in ('ref', 'deref') and len(o) == 2:
+                        o = strip(o[1])
+                    if o == ('arg', 1) or (o[0] == 'field' and o[1] == ('arg', 1) and not o[2]):
+                        whole = True       # `self.0` reached through Deref (newtype wrappers such as UdpNhcRepr)
+        allf = {((v['name'] if a['kind'] == 'enum' else '-'), f['name']) for v in a['variants'] for f in v['fields']}
+        short = adt.split('wire::', 1)[1]
+        for var, fld in sorted(allf):
+            n += 1
+            if (var, fld) in read or whole:
+                ctx.ok((short, var, fld), sample=dict(repr=short, field=fld, read_by='emit'))
+            elif (adt, fld) in _EMIT_FIELD_EXCEPTIONS:
+                ctx.ok((short, var, fld, 'by-caller'), sample=dict(repr=short, field=fld, reason=_EMIT_FIELD_EXCEPTIONS[(adt, fld)]))
+            else:
+                ctx.bad(f"{short}|{fld}|never-emitted", f"{short}::emit never reads the field `{fld}`" + (f" of {var}" if var != '-' else '') + ": a representation obtained by parsing a "
+                        "packet that carries it re-emits without it (and where buffer_len() counts it, the bytes reserved for it keep the previous buffer content)", body=b)
+    ctx.need(n >= 25, f"representation fields (found {n})")
+
+
+def in_scope_repr(F, adt):
+    return not any(x in adt for x in ('::rpl::', '::ipsec', 'pretty_print'))
